@@ -26,7 +26,7 @@ import CelmaVerif.Lemmas.LogFilesHist
   constructed on any pre-existing directory of the shape `DirOk`, and every state reached from one of them);
   files with foreign names stay outside.  Part 2 are the same theorems for a fresh directory (`run cfg evs`),
   corollaries of part 1 under their old names.  Part 3 are the history-level statements the audit asked for:
-  the most recent message is retained (`C15_latest_retained`, with the exact exception `C15_latest_lost_iff`),
+  the most recent message is retained (`C15_latest_retained_partial`, with the exact exception `C15_latest_lost_iff`),
   one event drops at most the oldest generation (`C15_drop_at_most_oldest`), and how much is retained
   (`C15_counted_window`, `C15_retained_size_bound`).
 -/
@@ -208,14 +208,16 @@ theorem C15_restart_step_from (cfg : Cfg) (hlim : 1 ≤ cfg.limit) (w : World) (
   rw [runFrom_append]
   exact ⟨f, h0, step_restart_fs hlim (runFrom_winv hlim evs w msgs hW hadm) h0⟩
 
-/-- **The most recent message is retained** (from any well-formed state).  After a history in which at least one
+/-- **The most recent message is retained** (from any well-formed state; `_partial` for the same reason as
+    `C15_latest_retained_partial`: the side condition `h2` excludes the recorded finding
+    `C15_finding_single_file_restart`).  After a history in which at least one
     message was ever written, the last message written is the last message of the generations read oldest →
     newest — so what is retained is never empty — provided at least two generation files are configured or
     generation 0 is not empty (`C15_latest_lost_iff_from`: this side condition is exact).  More precisely: a
     non-empty generation 0 ends with the most recent message; when generation 0 is empty (a restart found its
     predecessor unable to take any message and started a new generation), generation 1 is not empty and ends
     with it.  Over-long messages need no side condition. -/
-theorem C15_latest_retained_from (cfg : Cfg) (hlim : 1 ≤ cfg.limit) (w : World) (msgs : List Msg)
+theorem C15_latest_retained_partial_from (cfg : Cfg) (hlim : 1 ≤ cfg.limit) (w : World) (msgs : List Msg)
     (hW : WInv cfg w msgs) (evs : List Event) (hadm : ∀ m ∈ messages evs, Writable cfg m)
     (hne : msgs ++ messages evs ≠ [])
     (h2 : 2 ≤ numGen cfg ∨ (runFrom w evs).fs.get 0 ≠ some []) :
@@ -229,7 +231,32 @@ theorem C15_latest_retained_from (cfg : Cfg) (hlim : 1 ≤ cfg.limit) (w : World
   exact ⟨inv_latest hlim hI hne h2, inv_retained_ne_nil hlim hI hne h2,
     fun f h0 hf => inv_latest_cur hI h0 hf, fun g h0 h1 => inv_latest_prev hlim hI h0 h1⟩
 
-/-- The side condition of `C15_latest_retained_from` is exact: once a message was written, the most recent
+/-- Directly after a write (from any well-formed state) — whatever the number of generation files, whatever the
+    length of the message — the message just written is the last line of generation 0 and the last message of
+    the generations read oldest → newest. -/
+theorem C15_latest_retained_after_write_from (cfg : Cfg) (hlim : 1 ≤ cfg.limit) (w : World) (msgs : List Msg)
+    (hW : WInv cfg w msgs) (evs : List Event) (hadm : ∀ m ∈ messages evs, Writable cfg m) (m : Msg) :
+    ∃ f, (runFrom w (evs ++ [.write m])).fs.get 0 = some f ∧ f.getLast? = some m ∧
+      (generations (runFrom w (evs ++ [.write m])).fs (numGen cfg)).flatten.getLast? = some m := by
+  obtain ⟨f, _, hfit, hroll⟩ := C15_write_step_from cfg hlim w msgs hW evs hadm m
+  have hK := numGen_pos cfg
+  have key : ∀ f', (runFrom w (evs ++ [.write m])).fs.get 0 = some f' → f'.getLast? = some m →
+      (generations (runFrom w (evs ++ [.write m])).fs (numGen cfg)).flatten.getLast? = some m := by
+    intro f' h0 hl
+    rw [generations_flatten]
+    obtain ⟨t, ht⟩ := retained_ends0 (runFrom w (evs ++ [.write m])).fs (numGen cfg - 1)
+    have e : numGen cfg - 1 + 1 = numGen cfg := by omega
+    rw [e, h0] at ht
+    rw [ht, List.getLast?_append, Option.getD_some, hl]; rfl
+  by_cases h : size cfg f + cost cfg m ≤ cfg.limit
+  · have h0 := hfit h 0
+    simp only [if_true] at h0
+    exact ⟨_, h0, by simp, key _ h0 (by simp)⟩
+  · have h0 := hroll (by omega) 0
+    simp only [if_true] at h0
+    exact ⟨_, h0, by simp, key _ h0 (by simp)⟩
+
+/-- The side condition of `C15_latest_retained_partial_from` is exact: once a message was written, the most recent
     message is *not* the last retained one iff a single generation file is configured (`max_gen ≤ 1`) and it is
     empty — the state a restart leaves behind when it finds the only file unable to take another message (it
     truncates it, as every roll-over does with a single file); then nothing at all is retained. -/
@@ -252,7 +279,7 @@ theorem C15_latest_lost_iff_from (cfg : Cfg) (hlim : 1 ≤ cfg.limit) (w : World
     · exact hc
     · exfalso
       apply hlost
-      refine (C15_latest_retained_from cfg hlim w msgs hW evs hadm hne ?_).1
+      refine (C15_latest_retained_partial_from cfg hlim w msgs hW evs hadm hne ?_).1
       by_cases h2 : 2 ≤ numGen cfg
       · exact Or.inl h2
       · right; intro h0; exact hc ⟨by omega, h0⟩
@@ -475,12 +502,16 @@ theorem C15_restart_step (cfg : Cfg) (hlim : 1 ≤ cfg.limit) (evs : List Event)
 
 /-! ## Part 3: history-level statements from a fresh directory -/
 
-/-- **The most recent message is retained.**  After any history on a fresh directory that contains at least one
+/-- **The most recent message is retained** (`_partial`: the plain reading of "the generations … contain the most
+    recent messages" has no side condition; the region the side condition `h2` excludes - a single generation
+    file, `max_gen ≤ 1`, emptied by a restart that found it full - is a recorded finding of the library,
+    `C15_finding_single_file_restart` / known_findings.d/logfiles.json, where NOTHING is retained although
+    messages were written and no new message has arrived).  After any history on a fresh directory that contains at least one
     message, the last message written is the last message of the generations read oldest → newest (so what is
     retained is not empty), provided at least two generation files are configured or generation 0 is not empty;
     a non-empty generation 0 ends with it, and when generation 0 is empty generation 1 is not and ends with it.
     The side condition is exact (`C15_latest_lost_iff`); messages longer than a generation need none. -/
-theorem C15_latest_retained (cfg : Cfg) (hlim : 1 ≤ cfg.limit) (evs : List Event)
+theorem C15_latest_retained_partial (cfg : Cfg) (hlim : 1 ≤ cfg.limit) (evs : List Event)
     (hadm : ∀ m ∈ messages evs, Writable cfg m) (hne : messages evs ≠ [])
     (h2 : 2 ≤ numGen cfg ∨ (run cfg evs).fs.get 0 ≠ some []) :
     (generations (run cfg evs).fs (numGen cfg)).flatten.getLast? = (messages evs).getLast? ∧
@@ -488,33 +519,17 @@ theorem C15_latest_retained (cfg : Cfg) (hlim : 1 ≤ cfg.limit) (evs : List Eve
     (∀ f, (run cfg evs).fs.get 0 = some f → f ≠ [] → f.getLast? = (messages evs).getLast?) ∧
     (∀ g, (run cfg evs).fs.get 0 = some [] → (run cfg evs).fs.get 1 = some g →
       g ≠ [] ∧ g.getLast? = (messages evs).getLast?) :=
-  C15_latest_retained_from cfg hlim _ [] (C15_invariant_fresh cfg hlim).2 evs hadm hne h2
+  C15_latest_retained_partial_from cfg hlim _ [] (C15_invariant_fresh cfg hlim).2 evs hadm hne h2
 
 /-- Directly after a write — whatever the number of generation files, whatever the length of the message — the
     message just written is the last line of generation 0. -/
 theorem C15_latest_retained_after_write (cfg : Cfg) (hlim : 1 ≤ cfg.limit) (evs : List Event)
     (hadm : ∀ m ∈ messages evs, Writable cfg m) (m : Msg) :
     ∃ f, (run cfg (evs ++ [.write m])).fs.get 0 = some f ∧ f.getLast? = some m ∧
-      (generations (run cfg (evs ++ [.write m])).fs (numGen cfg)).flatten.getLast? = some m := by
-  obtain ⟨f, _, hfit, hroll⟩ := C15_write_step cfg hlim evs hadm m
-  have hK := numGen_pos cfg
-  have key : ∀ f', (run cfg (evs ++ [.write m])).fs.get 0 = some f' → f'.getLast? = some m →
-      (generations (run cfg (evs ++ [.write m])).fs (numGen cfg)).flatten.getLast? = some m := by
-    intro f' h0 hl
-    rw [generations_flatten]
-    obtain ⟨t, ht⟩ := retained_ends0 (run cfg (evs ++ [.write m])).fs (numGen cfg - 1)
-    have e : numGen cfg - 1 + 1 = numGen cfg := by omega
-    rw [e, h0] at ht
-    rw [ht, List.getLast?_append, Option.getD_some, hl]; rfl
-  by_cases h : size cfg f + cost cfg m ≤ cfg.limit
-  · have h0 := hfit h 0
-    simp only [if_true] at h0
-    exact ⟨_, h0, by simp, key _ h0 (by simp)⟩
-  · have h0 := hroll (by omega) 0
-    simp only [if_true] at h0
-    exact ⟨_, h0, by simp, key _ h0 (by simp)⟩
+      (generations (run cfg (evs ++ [.write m])).fs (numGen cfg)).flatten.getLast? = some m :=
+  C15_latest_retained_after_write_from cfg hlim _ [] (C15_invariant_fresh cfg hlim).2 evs hadm m
 
-/-- The side condition of `C15_latest_retained` is exact: once a message was written, the most recent message is
+/-- The side condition of `C15_latest_retained_partial` is exact: once a message was written, the most recent message is
     *not* the last retained one iff a single generation file is configured (`max_gen ≤ 1`) and it is empty; then
     nothing at all is retained.  (By `C15_restart_step` / `C15_write_step` this state arises only when a restart
     finds the only file unable to take another message and truncates it, as every roll-over does with a single
@@ -526,6 +541,21 @@ theorem C15_latest_lost_iff (cfg : Cfg) (hlim : 1 ≤ cfg.limit) (evs : List Eve
     (numGen cfg = 1 → (run cfg evs).fs.get 0 = some [] →
       (generations (run cfg evs).fs (numGen cfg)).flatten = []) :=
   C15_latest_lost_iff_from cfg hlim _ [] (C15_invariant_fresh cfg hlim).2 evs hadm hne
+
+/-- (recorded finding `single-file-restart-loses-all`, known_findings.d/logfiles.json; the witness, by evaluation)
+    The plain sentence "the generations read from oldest to newest contain the most recent messages" fails for a
+    single generation file: entry-counted policy, 2 entries per file, `max_gen` = 1, two messages, then a process
+    restart - `openCheck()` finds the only file full, `rollFiles()` has nothing to rename and the file is opened
+    truncating: the most recent message is NOT retained, in fact nothing is, although no new message has arrived
+    and the file could hold both messages.  (Replayed on the real `Counted` / `MaxSize` policies: same result.
+    The same restart with `max_gen ≥ 2` drops the oldest generation early but keeps the most recent messages;
+    `C15_latest_lost_iff` proves that this state - one file, empty - is the ONLY one in which the most recent
+    message is missing.  Not repaired: rolling at open is the designed behaviour of `PolicyBase::open()` /
+    `openCheck()`, a lazy roll would change what every restart on a full file does for every `max_gen`.) -/
+theorem C15_finding_single_file_restart :
+    ¬ ((generations (run ⟨.counted, 2, 1⟩ [.write [97], .write [98], .restart]).fs (numGen ⟨.counted, 2, 1⟩)).flatten.getLast?
+        = (messages [.write [97], .write [98], .restart]).getLast?) := by
+  decide
 
 /-- **One event drops at most the oldest generation.**  With `oldest` = the content of generation number
     `numGen-1` (nothing when that file does not exist, in particular whenever fewer than `numGen` files exist) and
@@ -638,7 +668,7 @@ example :
   refine ⟨(fun m _ h => by cases h), by decide, by decide⟩
 
 
-/-- `C15_latest_retained`: two entries per file, two files; two messages fill generation 0, the restart finds it
+/-- `C15_latest_retained_partial`: two entries per file, two files; two messages fill generation 0, the restart finds it
     full and starts an empty generation 0: the most recent message is the last line of generation 1 and of the
     generations read oldest → newest -/
 example :
